@@ -105,6 +105,32 @@ def main():
         for c in cases[:3] + cases[-2:]:
             samples.append(c.line[:300])
 
+    # ---- search for a failing input when a proof or the correspondence broke -----------
+    # (DESIGN.md 2.5) the oracle found nothing on the regular cases: escalate to the thorough
+    # generators with fresh random streams, evaluate the executable statement of the property on
+    # the implementation's outputs, and keep the first failing input as the replay.
+    searched = 0
+    if (not proof_ok or corr_div) and not oracle_viol and not violations and not args.replay:
+        t_search = time.time()
+        for attempt in range(3):
+            if time.time() - t_search > 600:
+                break
+            rng2 = random.Random("%s/%d/search/%d" % (pid, seed, attempt))
+            try:
+                cases2 = P.cases("thorough" if tier == "quick" or attempt else "quick", rng2)
+                lines2 = [c.line for c in cases2]
+                dbg2 = lib.run_lines(lib.harness_bin("debug"), lines2)
+                rel2 = lib.run_lines(lib.harness_bin("release"), lines2)
+                searched += len(cases2)
+                ov = P.oracle(cases2, dbg2, rel2, spec)
+            except Exception:
+                traceback.print_exc()
+                break
+            if ov:
+                oracle_viol = ov
+                break
+        print("SEARCH %s: %d further cases evaluated, %s" % (pid, searched, "failing input found" if oracle_viol else "no failing input found"))
+
     # ---- verdict -------------------------------------------------------------------------
     known = lib.load_known_findings()
     new_viol = []
@@ -157,6 +183,7 @@ def main():
     cov["correspondence_divergences"] = len(corr_div)
     cov["oracle_failures"] = len(oracle_viol)
     cov["known_findings_hit"] = len(known_lines)
+    cov["search_cases_after_break"] = searched
     cov["case_distribution"] = stats
     cov["modelled_source_sha256"] = lib.source_hashes()
     cov["trusted_base"] = props.TRUSTED_BASE + P.extra_trusted
